@@ -92,25 +92,112 @@ func ruleSPSC(w *core.World, r *core.Report) {
 		r.Unresolved("sendAof/channel", "command channel creation not found")
 		return
 	}
-	// all uses of the channel value, through its cell and closures
+	// all uses of the channel value: through its cell and closures, through helpers of the package it is
+	// handed to (the helper's parameter is the channel) and through a struct field it is stored in (every
+	// load of that field is the channel)
+	alias := map[ssa.Value]bool{mk: true}
 	isChan := func(v ssa.Value) bool {
 		ok := false
 		core.Walk(v, func(x ssa.Value) bool {
-			if x == ssa.Value(mk) {
+			if alias[x] {
 				ok = true
 			}
 			return !ok
 		})
 		return ok
 	}
+	scan := map[*ssa.Function]bool{}
+	async := map[*ssa.Function]bool{} // functions that do not run on sendAof's own goroutine
+	var order []*ssa.Function
+	add := func(g *ssa.Function, asyncRoot bool) {
+		for _, d := range core.DeepFuncs(g) {
+			if !scan[d] {
+				scan[d] = true
+				order = append(order, d)
+			}
+			if asyncRoot || d != g {
+				async[d] = true
+			}
+		}
+	}
+	add(f, false)
+	type fieldKey struct {
+		t string
+		i int
+	}
+	fields := map[fieldKey]bool{}
+	for changed, iter := true, 0; changed && iter < 8; iter++ {
+		changed = false
+		for k := 0; k < len(order); k++ {
+			g := order[k]
+			for _, in := range core.OwnInstrs(g) {
+				switch x := in.(type) {
+				case ssa.CallInstruction:
+					s := core.ResolveCall(x)
+					h := s.Callee
+					if h == nil || h.Parent() != nil || len(h.Blocks) == 0 || !core.Transparent(h) {
+						continue
+					}
+					args := s.Common().Args
+					off := len(args) - len(h.Params)
+					for i, a := range args {
+						if _, isCh := a.Type().Underlying().(*types.Chan); isCh && isChan(a) && i-off >= 0 && off >= 0 && !alias[h.Params[i-off]] {
+							alias[h.Params[i-off]] = true
+							_, isGo := x.(*ssa.Go)
+							add(h, isGo || async[g])
+							changed = true
+						}
+					}
+				case *ssa.Store:
+					if fa, ok := x.Addr.(*ssa.FieldAddr); ok && isChan(x.Val) {
+						if _, isCh := x.Val.Type().Underlying().(*types.Chan); isCh {
+							fk := fieldKey{core.TypeName(fa.X.Type()), fa.Field}
+							if !fields[fk] {
+								fields[fk] = true
+								changed = true
+							}
+						}
+					}
+				}
+			}
+		}
+		if len(fields) > 0 {
+			for _, h := range w.FuncsIn("syncer") {
+				for _, in := range core.OwnInstrs(h) {
+					var fk fieldKey
+					var v ssa.Value
+					switch x := in.(type) {
+					case *ssa.UnOp:
+						if fa, ok := x.X.(*ssa.FieldAddr); ok && x.Op == token.MUL {
+							fk, v = fieldKey{core.TypeName(fa.X.Type()), fa.Field}, x
+						}
+					case *ssa.Field:
+						fk, v = fieldKey{core.TypeName(x.X.Type()), x.Field}, x
+					}
+					if v != nil && fields[fk] && !alias[v] {
+						alias[v] = true
+						if !scan[h] {
+							// a method of the carrier struct: it runs wherever its value is started
+							root := h
+							for root.Parent() != nil {
+								root = root.Parent()
+							}
+							add(root, true)
+						}
+						changed = true
+					}
+				}
+			}
+		}
+	}
 	producers, consumers, other := 0, 0, 0
 	var ppos, cpos token.Pos
-	for _, g := range core.DeepFuncs(f) {
-		for _, in := range core.Instrs(g) {
+	for _, g := range order {
+		for _, in := range core.OwnInstrs(g) {
 			switch x := in.(type) {
 			case ssa.CallInstruction:
 				s := core.ResolveCall(x)
-				for _, a := range s.Common().Args {
+				for i, a := range s.Common().Args {
 					if _, isCh := a.Type().Underlying().(*types.Chan); !isCh || !isChan(a) {
 						continue
 					}
@@ -118,21 +205,28 @@ func ruleSPSC(w *core.World, r *core.Report) {
 					case "(*syncer.RedisOutput).parseAofCommand":
 						producers++
 						ppos = s.Pos()
-						// must run in the goroutine started by SafeGo: the enclosing function is a closure passed to SafeGo
-						if g == f {
+						// must run in a goroutine of its own: not on sendAof's
+						if !async[g] {
 							r.Fail("sendAof/producer", s.Pos(), "the parser is called synchronously, not in its own goroutine")
 						}
 					case "(*syncer.RedisOutput).sendCmdsBatch":
 						consumers++
 						cpos = s.Pos()
-						if _, isGo := x.(*ssa.Go); isGo || g != f {
+						if _, isGo := x.(*ssa.Go); isGo || async[g] {
 							r.Fail("sendAof/consumer", s.Pos(), "the sender must be called synchronously by sendAof")
 						}
 					default:
-						if s.Name != "builtin.len" && s.Name != "builtin.cap" {
-							other++
-							r.Fail("sendAof/channel-use", s.Pos(), "command channel handed to %s: a second producer or consumer breaks ordering", s.Name)
+						if s.Name == "builtin.len" || s.Name == "builtin.cap" {
+							continue
 						}
+						if h := s.Callee; h != nil && scan[h] {
+							off := len(s.Common().Args) - len(h.Params)
+							if i-off >= 0 && off >= 0 && alias[h.Params[i-off]] {
+								continue // followed into the helper
+							}
+						}
+						other++
+						r.Fail("sendAof/channel-use", s.Pos(), "command channel handed to %s: a second producer or consumer breaks ordering", s.Name)
 					}
 				}
 			case *ssa.Send:
@@ -964,7 +1058,16 @@ func ruleDbMapping(w *core.World, r *core.Report) {
 		}
 		n := 0
 		for _, s := range core.SitesNamed(f, false, "syncer.buildSelectCmdExecution") {
-			if dec == nil || core.PathFrom(f, dec, core.Is(s.Instr), nil) == nil {
+			at := s.Instr
+			if at.Parent() != f {
+				// emitted by a helper of the loop body: where the helper is called
+				for _, cs := range callSitesOf(w, at.Parent()) {
+					if cs.Parent() == f {
+						at = cs.(ssa.CallInstruction)
+					}
+				}
+			}
+			if dec == nil || core.PathFrom(f, dec, core.Is(at), nil) == nil {
 				continue // the resume SELECT before the loop
 			}
 			n++
@@ -1222,8 +1325,87 @@ func ruleDbTracking(w *core.World, r *core.Report) {
 					for _, st := range core.CellStores(a) {
 						visit(st.Val)
 					}
+					// ... and what a helper stores through the variable's address
+					if refs := a.Referrers(); refs != nil {
+						for _, rf := range *refs {
+							if ci, isCall := rf.(*ssa.Call); isCall {
+								if h := ci.Call.StaticCallee(); h != nil && core.Transparent(h) {
+									for k, arg := range ci.Call.Args {
+										if arg == ssa.Value(a) && k < len(h.Params) {
+											for _, in := range core.OwnInstrs(h) {
+												if st, isSt := in.(*ssa.Store); isSt && st.Addr == ssa.Value(h.Params[k]) {
+													visit(st.Val)
+												}
+											}
+										}
+									}
+								}
+							}
+						}
+					}
 					return
 				}
+				// the variable seen from inside a helper, through the pointer it was handed
+				if par, isPar := u.X.(*ssa.Parameter); isPar && par.Parent() != f && core.Transparent(par.Parent()) {
+					h := par.Parent()
+					for _, in := range core.OwnInstrs(h) {
+						if st, isSt := in.(*ssa.Store); isSt && st.Addr == ssa.Value(par) {
+							visit(st.Val)
+						}
+					}
+					for _, cs := range callSitesOf(w, h) {
+						ci := cs.(ssa.CallInstruction)
+						for k, hp := range h.Params {
+							if hp == par && k < len(ci.Common().Args) {
+								if a, isA := ci.Common().Args[k].(*ssa.Alloc); isA {
+									for _, st := range core.CellStores(a) {
+										visit(st.Val)
+									}
+								} else {
+									visit(ci.Common().Args[k])
+								}
+							}
+						}
+					}
+					return
+				}
+			}
+			// a result of a helper of the package: whatever the helper returns there
+			if e, ok := v.(*ssa.Extract); ok {
+				if c, isCall := e.Tuple.(*ssa.Call); isCall {
+					if h := c.Call.StaticCallee(); h != nil && len(h.Blocks) > 0 && core.Transparent(h) {
+						for _, in := range core.OwnInstrs(h) {
+							if ret, isRet := in.(*ssa.Return); isRet && e.Index < len(ret.Results) {
+								visit(ret.Results[e.Index])
+							}
+						}
+						return
+					}
+				}
+			}
+			if c, ok := v.(*ssa.Call); ok {
+				if h := c.Call.StaticCallee(); h != nil && len(h.Blocks) > 0 && core.Transparent(h) && h.Signature.Results().Len() == 1 {
+					for _, in := range core.OwnInstrs(h) {
+						if ret, isRet := in.(*ssa.Return); isRet {
+							visit(ret.Results[0])
+						}
+					}
+					return
+				}
+			}
+			// a value parameter of a helper: what the callers hand in
+			if par, ok := v.(*ssa.Parameter); ok && par.Parent() != f && core.Transparent(par.Parent()) {
+				h := par.Parent()
+				for _, cs := range callSitesOf(w, h) {
+					ci := cs.(ssa.CallInstruction)
+					args := ci.Common().Args
+					for k, hp := range h.Params {
+						if hp == par && k < len(args) {
+							visit(args[k])
+						}
+					}
+				}
+				return
 			}
 			if c, ok := core.ConstInt(v); ok {
 				for _, a := range sp.initOK {
@@ -1251,7 +1433,66 @@ func ruleDbTracking(w *core.World, r *core.Report) {
 				}
 			}
 		}
+		// the selectDB call may live in a helper of the loop body: there the "next entry" is the helper's return
+		home := sd.Instr.Parent()
+		if tb == nil && home != f {
+			for _, b := range home.Blocks {
+				if iff, ok := b.Instrs[len(b.Instrs)-1].(*ssa.If); ok {
+					if e, ok := core.Unwrap(iff.Cond).(*ssa.Extract); ok && e.Index == 1 && e.Tuple == sd.Value() {
+						tb = b.Succs[0]
+					}
+				}
+			}
+		}
 		head := core.LoopHeadOf(sd.Instr.Block())
+		if head == nil && home != f && tb != nil {
+			okFail := true
+			var emits []core.Site
+			isEmit := func(in ssa.Instruction) bool {
+				ci, ok := in.(ssa.CallInstruction)
+				if !ok {
+					return false
+				}
+				s := core.ResolveCall(ci)
+				if !core.MatchName(s.Name, sp.emit) {
+					return false
+				}
+				for _, a := range s.Args() {
+					if core.DependsOn(a, isRes0) {
+						emits = append(emits, s)
+						return true
+					}
+				}
+				return false
+			}
+			// a return of the helper that does not report a failure, reached without the switch
+			esc := core.PathFromBlock(tb, func(in ssa.Instruction) bool {
+				ret, isRet := in.(*ssa.Return)
+				if !isRet {
+					return false
+				}
+				for _, rv := range ret.Results {
+					if types.Identical(rv.Type(), types.Universe.Lookup("error").Type()) && !core.IsNilConst(rv) {
+						return false
+					}
+				}
+				return true
+			}, isEmit)
+			if sp.emit == "pkg/redis.SelectDB" {
+				for _, e := range emits {
+					if !failureReturned(home, e) {
+						okFail = false
+					}
+				}
+				for _, cs := range callSitesOf(w, home) {
+					if cs.Parent() == f && !failureReturned(f, core.ResolveCall(cs.(ssa.CallInstruction))) {
+						okFail = false
+					}
+				}
+			}
+			r.Check(esc == nil && len(emits) > 0 && okFail, short+"/db-switch-emitted", sd.Pos(), "when selectDB reports a change the switch must reach the target (with selectDB's database) before the next entry is handled, and a failed switch must end the replay; otherwise the tracked database and the connection disagree and later keys land in the wrong database (escape=%v, emissions=%d, failure ends replay=%v)", esc != nil, len(emits), okFail)
+			continue
+		}
 		if tb == nil || head == nil {
 			r.Undecided(short+"/db-switch-emitted", sd.Pos(), "the branch on selectDB's 'changed' result or the replay loop was not found")
 			continue
@@ -1316,28 +1557,7 @@ func ruleTargetDbConfigured(w *core.World, r *core.Report) {
 		fa, isFa := st.Addr.(*ssa.FieldAddr)
 		return isFa && core.FieldName(fa) == "TargetDb" && strings.HasSuffix(core.TypeName(fa.X.Type()), "ReplayConfig")
 	}
-	live := map[*ssa.BasicBlock]bool{}
-	for _, b := range f.Blocks {
-		for _, in := range b.Instrs {
-			if isTargetDbStore(in) {
-				live[b] = true
-			}
-		}
-	}
-	for changed := true; changed; {
-		changed = false
-		for _, b := range f.Blocks {
-			if live[b] {
-				continue
-			}
-			for _, sc := range b.Succs {
-				if live[sc] {
-					live[b] = true
-					changed = true
-				}
-			}
-		}
-	}
+	live := liveBlocks(f, isTargetDbStore)
 	okEnum := core.EnumPathsStop(f.Blocks[0], 0, 200000, 1, func(b *ssa.BasicBlock) bool { return !live[b] }, func(p *core.Path) {
 		if bad != "" {
 			return
